@@ -21,9 +21,9 @@ from .c20 import fresh_requirements, r_freshcopy
 
 MANIFEST = {
     "level": "other",
-    "technique": "static analysis: symbolic bound facts from clamp idioms (if v < E: v = E) on the symbolically evaluated root(), typestate of the Newton iterate against the loop-carried bracket, must-pass-through ordering in set(), range-refusal path rule, fresh-container analysis for the copy constructor, exhaustive evaluation of the ordering routine on every weak ordering of the abscissae and of the duplicate test, symbolic execution of the Newton coefficient table for 2..6 points (one divided difference per abscissa on every path), partial evaluation of the conjunction helpers for every table size 3..9 (time axis and ordinates handed to the interpolant)",
-    "text": "Decides for every call (not sampled limits) that root() evaluates the interpolant only inside the table, that any accepted Newton iterate is checked against the current bracket (so the answer stays in [xl, xh]), that out-of-range and duplicated abscissae are refused before any table is computed, and that the shared lists of a copy are never mutated in place. The ordering step is shown to sort every ordering of the input points, and the conjunction helpers to tabulate the coordinate differences against n = -k..k with the middle used entry at n = 0 for every table size (even sizes lose their last entry). Polynomial reproduction to 1e-9 and convergence of the iteration are numerical and not decided.",
-    "note": "Trusted: the clamp idioms enumerated in the checker (if v < m: v = m / if v > M: v = M and their <=, >= and min/max forms). Undecided: reproduction of polynomials and derivatives, convergence, sign-change existence.",
+    "technique": "static analysis: symbolic bound facts from clamp idioms (if v < E: v = E) on the symbolically evaluated root(), typestate of the Newton iterate against the loop-carried bracket, must-pass-through ordering in set(), range-refusal path rule, fresh-container analysis for the copy constructor, exhaustive evaluation of the ordering routine on every weak ordering of the abscissae and of the duplicate test, symbolic execution of the Newton coefficient table for 2..6 points (one divided difference per abscissa on every path), partial evaluation of the conjunction helpers for every table size 3..9 (time axis and ordinates handed to the interpolant), symbolic execution of _newton_diff / __call__ / derivative on tables of 2..9 symbolic points with the interpolation identities (degree below n, value Y_k at X_k, derivative() == formal derivative) discharged as rational-function identities by polynomial normal form",
+    "text": "Decides for every call (not sampled limits) that root() evaluates the interpolant only inside the table, that any accepted Newton iterate is checked against the current bracket (so the answer stays in [xl, xh]), that out-of-range and duplicated abscissae are refused before any table is computed, and that the shared lists of a copy are never mutated in place. The ordering step is shown to sort every ordering of the input points, and the conjunction helpers to tabulate the coordinate differences against n = -k..k with the middle used entry at n = 0 for every table size (even sizes lose their last entry). That the interpolant is the interpolating polynomial is proved, in exact arithmetic, for every table at once: with the points symbolic and in no particular order, __call__'s value is a polynomial of degree below n whose value at every tabulated abscissa X_k is Y_k once the coefficients are the divided differences _newton_diff computes (all points symbolic for n = 2..4, 5 in the thorough tier; symbolic ordinates over sampled distinct rational abscissae for n up to 9) - so it reproduces every polynomial of degree below n - each `x is tabulated` short cut returns the ordinate of the same index, and derivative(x) is identically the formal derivative of that polynomial (n = 2..9). The 1e-9 floating-point tolerance and the convergence of the root iteration are numerical and not decided.",
+    "note": "Trusted: the clamp idioms enumerated in the checker (if v < m: v = m / if v > M: v = M and their <=, >= and min/max forms). Undecided: floating-point error of the polynomial reproduction (1e-9), convergence, sign-change existence.",
 }
 MOD = "Interpolation"
 CLS = "Interpolation"
@@ -69,7 +69,8 @@ def run(repo, rep, tier):
     rep.decided = ["D1 limits clamped to the table on the correct side", "D2 accepted Newton iterate checked against the current bracket; minmax delegates",
                    "D3 refusals (range, duplicates), order-then-tabulate, exception classes", "D4 copies share lists but never observe in-place mutation",
                    "D5 clients use default limits on their own tables"]
-    rep.undecided = ["polynomial reproduction 1e-9", "derivative values", "convergence of the iteration"]
+    rep.undecided = ["floating-point error of the polynomial reproduction (1e-9)", "convergence of the iteration"]
+    rep.decided.append("D6 __call__ is the unique interpolating polynomial (degree < n, passes through every point) and derivative() its formal derivative: rational-function identities on symbolic tables of 2..9 points (R-INTERPOLANT)")
     rep.rule("R-CLAMP", "symbolic bound facts from clamp idioms establish the precondition of the interpolant call / the bracket invariant")
     clamp(repo, rep)
     refusals(repo, rep)
@@ -78,12 +79,222 @@ def run(repo, rep, tier):
     r_freshcopy_local(repo, rep)
     clients(repo, rep)
     table_complete(repo, rep)
+    interpolant(repo, rep, tier)
     time_axis(repo, rep)
     fam = [(MOD, "%s.%s" % (CLS, q)) for q in ("set", "_order_points", "_compute_table", "_newton_diff", "__call__", "derivative", "root", "minmax")]
     effects.check_functions(repo, rep, fam)
     guards.check_functions(repo, rep, fam)
     raises(repo, rep, fam)
     return "other"
+
+
+# --------------------------------------------------------------------------------------------------------------------------
+# R-INTERPOLANT: the value returned by __call__ is THE interpolating polynomial; derivative() is its derivative
+# --------------------------------------------------------------------------------------------------------------------------
+def _poly_diff(p, atom):
+    """formal derivative of a poly.Poly with respect to one atom"""
+    from ..poly import Poly
+    out = {}
+    for mono, c in p.t.items():
+        d = dict(mono)
+        e = d.get(atom, 0)
+        if not e:
+            continue
+        if e == 1:
+            del d[atom]
+        else:
+            d[atom] = e - 1
+        k = tuple(sorted(d.items()))
+        v = out.get(k, 0) + c * e
+        if v == 0:
+            out.pop(k, None)
+        else:
+            out[k] = v
+    return Poly(out)
+
+
+def interpolant(repo, rep, tier):
+    """R-INTERPOLANT.  For a table of n symbolic points (X_i, Y_i) - in no particular order - the Newton coefficients are derived by
+    executing _newton_diff symbolically (recursion unfolded), the value of __call__(x) by executing it with symbolic coefficients.
+    Proved as identities of rational functions: (a) each short cut `x is a tabulated abscissa` returns the ordinate of that same
+    abscissa; (b) the general value H(x) is a polynomial in x of degree below n; (c) H(X_k) == Y_k for every k once the coefficients
+    are the divided differences.  (b) and (c) make H the unique interpolating polynomial, hence it reproduces every polynomial of
+    degree below n - for every table, order and abscissa at once (exact arithmetic).  n = 2..4 (5 in the thorough tier) are proved
+    with all X_i, Y_i symbolic; for n up to 9 the Y_i stay symbolic (H is linear in them) and the X_i are given several sets of
+    distinct rationals, sorted and unsorted.  (d) derivative(x) == dH/dx as polynomials in x, X_i and the coefficients, n = 2..9."""
+    import random
+    from fractions import Fraction
+    from ..poly import Algebra
+    from ..rules import eval_exact, NotEvaluable
+    rep.rule("R-INTERPOLANT", "Interpolation.__call__ returns a polynomial of degree below n that takes the value Y_k at every X_k (divided differences symbolic), "
+                              "and derivative() is its formal derivative: identities of rational functions, tables of 2..9 points")
+    site = "%s.%s.__call__" % (MOD, CLS)
+    for q in ("__call__", "derivative", "_newton_diff"):
+        rep.fn(MOD, CLS + "." + q)
+    tol = T.num(Fraction("1e-10"))
+    X = T.sym("NUM_x")
+    XA = ("V", "NUM_x")
+    proved, sampled, dproved = [], [], []
+    nmax_sym = 5 if tier == "thorough" else 4
+    rnd = random.Random(20240917)
+    for n in range(2, 10):
+        xs = ("list",) + tuple(T.sym("NUM_X%d" % i) for i in range(n))
+        ys = ("list",) + tuple(T.sym("NUM_Y%d" % i) for i in range(n))
+        cs = ("list",) + tuple(T.sym("NUM_C%d" % i) for i in range(n))
+        memo = {}
+
+        def nd(a, b):
+            if (a, b) not in memo:
+                outs, _ = symx.eval_function(repo, MOD, CLS + "._newton_diff", arg_terms={"self": T.sym("self"), "start": T.num(a), "end": T.num(b)},
+                                             extra_env={"self._x": xs, "self._y": ys, "self._tol": tol}, unroll=12)
+                t = symx.return_term(outs)
+                if t is None:
+                    raise AnalysisError("_newton_diff(%d, %d) has no value" % (a, b))
+                mp = {}
+                for c in set(x for x in T.walk(t) if x[0] == "call" and x[1].endswith("._newton_diff")):
+                    if c[-2][0] != "num" or c[-1][0] != "num":
+                        raise AnalysisError("recursive call with non-literal indices: " + T.show(c)[:80])
+                    if (int(c[-2][1]), int(c[-1][1])) == (a, b) or not (0 <= c[-2][1] <= c[-1][1] < n) or (c[-1][1] - c[-2][1]) >= (b - a):
+                        raise AnalysisError("recursion does not descend: " + T.show(c)[:80])
+                    mp[c] = nd(int(c[-2][1]), int(c[-1][1]))
+                memo[(a, b)] = T.subst(t, mp) if mp else t
+            return memo[(a, b)]
+        try:
+            fn_ = repo.func(MOD, CLS + "._newton_diff")
+            an_ = [a.arg for a in fn_.args.args]
+            if an_ != ["self", "start", "end"]:
+                raise AnalysisError("_newton_diff signature changed: %s" % an_)
+            table = [nd(0, i) for i in range(n)]
+            env = {"self._x": xs, "self._y": ys, "self._table": cs, "self._tol": tol}
+            fc = repo.func(MOD, CLS + ".__call__")
+            outs, _ = symx.eval_function(repo, MOD, CLS + ".__call__", arg_terms={"self": T.sym("self"), fc.args.args[1].arg: X}, extra_env=dict(env), unroll=12)
+            fd = repo.func(MOD, CLS + ".derivative")
+            douts, _ = symx.eval_function(repo, MOD, CLS + ".derivative", arg_terms={"self": T.sym("self"), fd.args.args[1].arg: X}, extra_env=dict(env), unroll=12)
+        except (AnalysisError, symx.Unsupported, RecursionError) as e:
+            rep.inconcl("R-INTERPOLANT", site, "n=%d: not executable symbolically: %s" % (n, str(e)[:160]))
+            return
+        rets = [o for o in outs if o.kind == "ret"]
+        if not rets:
+            rep.inconcl("R-INTERPOLANT", site, "n=%d: __call__ has no value-returning path" % n)
+            return
+        alg = Algebra()
+        general = []
+        for o in rets:
+            v = o.value
+            if v[0] == "phi":
+                general.append(o)
+                continue
+            if v in ys[1:]:
+                # short cut: must be guarded by `x is (within the tolerance of) the abscissa with the same index`
+                k = ys.index(v) - 1
+                near = [c for c in conjuncts(o.cond) if c[0] == "cmp" and c[1] in ("Lt", "LtE") and any(y_ == xs[1 + j] for j in range(n) for y_ in T.walk(c[2]))
+                        and not (c[0] == "not")]
+                idx = set(j for c in near for j in range(n) if any(y_ == xs[1 + j] for y_ in T.walk(c[2])))
+                if idx and idx != {k}:
+                    rep.violation("R-INTERPOLANT", site, "shortcut:n=%d" % n, "table of %d points: when x is the tabulated abscissa X_%d the ordinate Y_%d is returned"
+                                  % (n, sorted(idx)[0], k), obligation=True)
+                    return
+                continue
+            general.append(o)
+        if len(general) != 1:
+            rep.inconcl("R-INTERPOLANT", site, "n=%d: %d general value paths (expected the one Horner evaluation)" % (n, len(general)))
+            return
+        H = general[0].value
+        try:
+            rH = alg.rat(H)
+        except Exception as e:
+            rep.inconcl("R-INTERPOLANT", site, "n=%d: value not algebraic: %s" % (n, str(e)[:100]))
+            return
+        if not rH.d.is_const():
+            rep.inconcl("R-INTERPOLANT", site, "n=%d: the value is not a polynomial in its coefficients" % n)
+            return
+        deg = max((dict(m).get(XA, 0) for m in rH.n.t), default=0)
+        if deg > n - 1:
+            rep.violation("R-INTERPOLANT", site, "degree:n=%d" % n, "table of %d points: the value is a polynomial of degree %d in x; the interpolating polynomial has degree below %d"
+                          % (n, deg, n), obligation=True)
+            return
+        sub_c = {cs[1 + i]: table[i] for i in range(n)}
+        # (c) symbolic in everything
+        if n <= nmax_sym:
+            for k in range(n):
+                hk = T.subst(T.subst(H, {X: xs[1 + k]}), sub_c)
+                try:
+                    eq = alg.equal(hk, ys[1 + k])
+                except (OverflowError, ZeroDivisionError, Exception) as e:
+                    rep.inconcl("R-INTERPOLANT", site, "n=%d: identity H(X_%d) == Y_%d not decided: %s" % (n, k, k, str(e)[:80]))
+                    return
+                if not eq:
+                    rep.violation("R-INTERPOLANT", site, "through-points:n=%d" % n,
+                                  "table of %d points: with the Newton coefficients the returned value at x = X_%d is not Y_%d (as a rational function of the table): the "
+                                  "interpolant does not pass through the tabulated point, so polynomials of degree below %d are not reproduced" % (n, k, k, n), obligation=True)
+                    return
+            proved.append(n)
+        # (c) Y symbolic, X sampled
+        for trial in range(3 if tier != "thorough" else 8):
+            vals = rnd.sample(range(-40, 41), n)
+            if trial == 0:
+                vals = sorted(vals)
+            elif trial == 1:
+                vals = [Fraction(v, 7) for v in sorted(vals, reverse=True)]
+            mpx = {xs[1 + i]: T.num(Fraction(vals[i])) for i in range(n)}
+            alg2 = Algebra()
+            for k in range(n):
+                hk = T.subst(T.subst(T.subst(H, {X: xs[1 + k]}), sub_c), mpx)
+                try:
+                    eq = alg2.equal(hk, ys[1 + k])
+                except ZeroDivisionError:
+                    eq = None
+                if eq is None:
+                    rep.inconcl("R-INTERPOLANT", site, "n=%d: division by zero on distinct abscissae %s" % (n, vals))
+                    return
+                if not eq:
+                    rep.violation("R-INTERPOLANT", site, "through-points:n=%d" % n,
+                                  "table of %d points with abscissae %s (ordinates symbolic): the returned value at the abscissa %s is not its ordinate Y_%d: the interpolant "
+                                  "does not pass through the tabulated point, so polynomials of degree below %d are not reproduced"
+                                  % (n, [str(v) for v in vals], vals[k], k, n), obligation=True)
+                    return
+        sampled.append(n)
+        # (d) derivative
+        drets = [o for o in douts if o.kind == "ret"]
+        if not drets:
+            rep.inconcl("R-INTERPOLANT", "%s.%s.derivative" % (MOD, CLS), "n=%d: no value-returning path" % n)
+            return
+        dH = _poly_diff(rH.n, XA)
+        for o in drets:
+            try:
+                rD = Algebra().rat(T.subst(o.value, sub_c) if n == 2 else o.value)
+                if n == 2:
+                    lhs = rD
+                    rr = Algebra().rat(T.subst(_poly_term(dH), sub_c))
+                    same = (lhs.n * rr.d - rr.n * lhs.d).is_zero()
+                else:
+                    same = (rD.n * rH.d - dH * rD.d).is_zero()
+            except Exception as e:
+                rep.inconcl("R-INTERPOLANT", "%s.%s.derivative" % (MOD, CLS), "n=%d: derivative not algebraic: %s" % (n, str(e)[:100]))
+                return
+            if not same:
+                rep.violation("R-INTERPOLANT", "%s.%s.derivative" % (MOD, CLS), "derivative:n=%d" % n,
+                              "table of %d points: derivative(x) is not the formal derivative of the polynomial __call__(x) evaluates (as polynomials in x, the abscissae and "
+                              "the Newton coefficients)" % n, obligation=True)
+                return
+        dproved.append(n)
+    rep.ok("R-INTERPOLANT", site, "value is the unique interpolating polynomial: degree < n and H(X_k) == Y_k proved with all points symbolic for n = %s; with symbolic ordinates "
+           "and sampled distinct rational abscissae (sorted, reversed, shuffled) for n = %s" % (proved, sampled), obligation=True)
+    rep.ok("R-INTERPOLANT", "%s.%s.derivative" % (MOD, CLS), "derivative(x) == d/dx of the interpolating polynomial, identically in x, X_i and the coefficients, for n = %s" % dproved, obligation=True)
+    rep.floor("table sizes with the interpolation identities proved", len(sampled), 8)
+
+
+def _poly_term(p):
+    """poly.Poly -> term (atoms ('V', name) only)"""
+    parts = []
+    for mono, c in p.t.items():
+        fac = [T.num(c)]
+        for (a, e) in mono:
+            if a[0] != "V":
+                raise AnalysisError("non-variable atom")
+            fac += [T.sym(a[1])] * e
+        parts.append(T.mul(*fac))
+    return T.add(*parts) if parts else T.ZERO
 
 
 def table_complete(repo, rep):
